@@ -9,7 +9,7 @@ T = pg.typing
 MISSING = pg.MISSING_VALUE
 
 TIERS = {
-    'quick': dict(shards=8, cases=18, family=7, strangers=3, values=40, envelopes=2, cross=12),
+    'quick': dict(shards=8, cases=16, family=7, strangers=3, values=40, envelopes=2, cross=12),
     'thorough': dict(shards=16, cases=330, family=8, strangers=4, values=48, envelopes=2, cross=16),
 }
 RULE = ('case = a pool of value specs: one generated spec (Bool/Int/Float/Str/Enum/List/'
